@@ -868,6 +868,228 @@ def oracle_stack(ctx, c, i, root0, outd):
                          what="version tagged current (%s)" % where)
 
 
+# ------------------------------------------------------------------ stream 4: tags and flavors in one database
+
+def gen_tags(rng):
+    """two versions x two or three flavors of one product; declare (with or without a tag), assignTag,
+    unassignTag and undeclare of one flavor at a time, while other flavors already have blocks and chain entries"""
+    name = rng.choice(NAMES)
+    fls = rng.sample(FLAVORS, rng.choice([2, 2, 3]))
+    vers = rng.sample(["1.0", "2.0", "svn 7", "v1_2"], 2)
+    declared, ops = set(), []
+    for _ in range(rng.choice([4, 5, 6, 8])):
+        r = rng.random()
+        fl = rng.choice(fls)
+        if r < 0.5 or not declared:
+            ver = rng.choice(vers)
+            ops.append({"op": "declare", "flavor": fl, "version": ver, "tag": rng.random() < 0.6,
+                        "dir": rng.choice(["in", "in", "none"])})
+            declared.add((fl, ver))
+        elif r < 0.72:
+            fl, ver = rng.choice(sorted(declared))
+            ops.append({"op": "assign", "flavor": fl, "version": ver})
+        elif r < 0.87:
+            ops.append({"op": "unassign", "flavor": fl})
+        else:
+            fl, ver = rng.choice(sorted(declared))
+            ops.append({"op": "undeclare", "flavor": fl, "version": ver})
+            declared.discard((fl, ver))
+    return {"kind": "tags", "stack": rng.choice(STACKNAMES), "name": name, "flavors": fls, "versions": vers,
+            "ops": ops, "moved": rng.choice(["moved", "new place"]), "shape": "tags"}
+
+
+def impl_tags(cases, scratch):
+    common.import_eups()
+    from eups.Product import Product
+    import eups.utils
+    DBM = sys.modules["eups.db.Database"]
+    devnull = open(os.devnull, "w")
+    eups.utils.stdwarn = devnull
+    sys.modules["eups.db.ChainFile"].stdwarn = devnull
+    out = []
+    for n, c in enumerate(cases):
+        base = os.path.join(scratch, "t%d" % n)
+        root = os.path.join(base, c["stack"])
+        db = os.path.join(root, "ups_db")
+        cwd = os.path.join(base, "cwd")
+        os.makedirs(db)
+        os.makedirs(cwd)
+        os.chdir(cwd)
+        name = c["name"]
+        DBM._databases.clear()
+        D = DBM.Database(db)
+        cfile = os.path.join(db, name, "current.chain")
+
+        def snap(Dx, dbp):
+            s = {"vf": {}, "chain": None, "tagged": {}}
+            for ver in c["versions"]:
+                vf = os.path.join(dbp, name, ver + ".version")
+                s["vf"][ver] = split_file(vf) if os.path.exists(vf) else None
+            cf = os.path.join(dbp, name, "current.chain")
+            s["chain"] = split_file(cf) if os.path.exists(cf) else None
+            for fl in c["flavors"]:
+                try:
+                    s["tagged"][fl] = Dx.getTaggedVersion("current", name, fl)[1]
+                except Exception as ex:  # noqa
+                    s["tagged"][fl] = None if type(ex).__name__ == "ProductNotFound" else "err:" + type(ex).__name__
+            return s
+
+        res = {"base": base, "steps": []}
+        for op in c["ops"]:
+            step = {"listing": listing(base)}
+            try:
+                if op["op"] == "declare":
+                    ver = op["version"]
+                    if op["dir"] == "in":
+                        pdir = os.path.join(root, op["flavor"], name, ver)
+                        tf = os.path.join(pdir, "ups", name + ".table")
+                        os.makedirs(os.path.dirname(tf), exist_ok=True)
+                        with open(tf, "w") as f:
+                            f.write("# t\n")
+                        ups_dir = "ups"
+                    else:
+                        pdir, tf, ups_dir = "none", "none", None
+                    step["listing"] = listing(base)
+                    step["args"] = [name, ver, op["flavor"], pdir, tf, db, ups_dir]
+                    D.declare(Product(name, ver, op["flavor"], pdir, tf, ["current"] if op["tag"] else None, db,
+                                      ups_dir=ups_dir))
+                elif op["op"] == "assign":
+                    D.assignTag("current", name, op["version"], op["flavor"])
+                elif op["op"] == "unassign":
+                    D.unassignTag("current", name, op["flavor"])
+                else:
+                    D.undeclare(Product(name, op["version"], op["flavor"]))
+            except Exception as ex:  # noqa
+                step["err"] = errclass(type(ex).__name__)
+            step["after"] = snap(D, db)
+            res["steps"].append(step)
+        moved = os.path.join(base, c["moved"])
+        os.rename(root, moved)
+        DBM._databases.clear()
+        res["moved"] = snap(DBM.Database(os.path.join(moved, "ups_db")), os.path.join(moved, "ups_db"))
+        out.append(res)
+        os.chdir(scratch)
+        shutil.rmtree(base, ignore_errors=True)
+    return out
+
+
+def parsed_blocks(lines):
+    """flavor -> the fields of its block, without who/when"""
+    return {fl: block_meaning([l for l in bl if not any(l.startswith(m + " =") for m in META)])
+            for fl, bl in blocks_of(lines).items()}
+
+
+def run_tags(ctx, cases, scratch):
+    r = common.in_child(impl_tags, cases, scratch, timeout=1500)
+    if r[0] != "ok":
+        raise RuntimeError("tags implementation driver failed: %r" % (r,))
+    for c, i in zip(cases, r[1]):
+        ctx.count(1, key="tags/%dfl/%dops" % (len(c["flavors"]), len(c["ops"])),
+                  nontrivial=("tags", c["name"], tuple(c["flavors"]), json.dumps(c["ops"])))
+        small = {k: c[k] for k in ("kind", "stack", "name", "flavors", "versions", "ops", "moved", "shape")}
+        # ---- the model, on its own texts
+        mvf = {v: None for v in c["versions"]}
+        mcf = None
+        # ---- the property's oracle: an abstract database
+        tagged, prev = {}, {"vf": {v: None for v in c["versions"]}, "chain": None}
+        ok = True
+        for k, (op, st) in enumerate(zip(c["ops"], i["steps"])):
+            ctx.bump("tags-op/" + op["op"])
+            fl = op["flavor"]
+            if "err" in st:
+                ctx.fail("tags-op-raises", small, expected=None, observed=st["err"],
+                         what="step %d (%s %s) raised %s" % (k, op["op"], fl, st["err"]))
+                break
+            after = st["after"]
+            # model
+            if ok:
+                qs = []
+                if op["op"] == "declare":
+                    ver = op["version"]
+                    qs.append(("vf", ver, "\t".join(["declare", "1", enc_list(";", st["listing"]),
+                                                     enc_product(st["args"]), enc_lines(mvf[ver])])))
+                    if op["tag"]:
+                        qs.append(("cf", None, "\t".join(["cfassign", enc(c["name"]), enc("current"), enc(ver), enc(fl),
+                                                          enc_lines(mcf)])))
+                elif op["op"] == "assign":
+                    qs.append(("cf", None, "\t".join(["cfassign", enc(c["name"]), enc("current"), enc(op["version"]),
+                                                      enc(fl), enc_lines(mcf)])))
+                elif op["op"] == "unassign":
+                    if mcf is not None:
+                        qs.append(("cf", None, "\t".join(["cfremove", enc_lines(mcf), enc(fl)])))
+                else:
+                    ver = op["version"]
+                    if mvf[ver] is not None:
+                        # undeclare first drops the tags that sit on this flavor and version
+                        mt = None
+                        if mcf is not None:
+                            g = ctx.model(["\t".join(["cfversions", enc(c["name"]), enc("current"), enc_lines(mcf),
+                                                      enc(fl)])])[0].split("\t")
+                            mt = dec_val(g[1]) if len(g) > 1 else None
+                        if mt == ver and fl in blocks_of(mvf[ver]):
+                            qs.append(("cf", None, "\t".join(["cfremove", enc_lines(mcf), enc(fl)])))
+                        qs.append(("vf", ver, "\t".join(["vfremove", enc_lines(mvf[ver]), enc(fl)])))
+                for (what, ver, q), line in zip(qs, ctx.model([q for _, _, q in qs])):
+                    f = line.split("\t")
+                    ctx.traces_validated += 1
+                    new = dec_lines(f[1] if len(f) > 1 else "") if f[0] == "ok" else None
+                    if new == []:
+                        new = None          # the file is removed
+                    if what == "vf":
+                        mvf[ver] = new
+                    else:
+                        mcf = new
+                    if f[0] != "ok":
+                        ctx.disagree({"case": small, "step": k}, f, "no error", where="tags-model")
+                        ok = False
+                if ok:
+                    mine = {"vf": {v: (drop_meta(x) if x is not None else None) for v, x in mvf.items()},
+                            "chain": drop_meta(mcf) if mcf is not None else None}
+                    theirs = {"vf": {v: (drop_meta(x) if x is not None else None) for v, x in after["vf"].items()},
+                              "chain": drop_meta(after["chain"]) if after["chain"] is not None else None}
+                    if mine != theirs:
+                        ctx.disagree({"case": small, "step": k}, mine, theirs, where="tags-texts")
+                        ok = False
+            # oracle: the abstract database
+            if op["op"] == "declare" and op["tag"]:
+                tagged[fl] = op["version"]
+            elif op["op"] == "assign":
+                tagged[fl] = op["version"]
+            elif op["op"] == "unassign":
+                tagged.pop(fl, None)
+            elif op["op"] == "undeclare" and tagged.get(fl) == op["version"]:
+                tagged.pop(fl)
+            for g in c["flavors"]:
+                if after["tagged"].get(g) != tagged.get(g):
+                    ctx.fail("tagged-version" if g == fl else "chain-rewrite-changes-other-flavor", small,
+                             expected=tagged.get(g), observed=after["tagged"].get(g),
+                             what="after step %d (%s %s%s) flavor %s has current = %r, the operations so far give %r"
+                                  % (k, op["op"], fl, " " + op.get("version", ""), g, after["tagged"].get(g),
+                                     tagged.get(g)))
+            # oracle: blocks of the other flavors are unchanged
+            for ver in c["versions"]:
+                was, now_ = parsed_blocks(prev["vf"][ver]), parsed_blocks(after["vf"][ver])
+                for g in c["flavors"]:
+                    if g != fl and was.get(g) != now_.get(g):
+                        ctx.fail("rewrite-changes-other-flavor", small, expected=was.get(g), observed=now_.get(g),
+                                 what="step %d (%s %s) changed the block of flavor %s in %s.version"
+                                      % (k, op["op"], fl, g, ver))
+            was, now_ = parsed_blocks(prev["chain"]), parsed_blocks(after["chain"])
+            for g in c["flavors"]:
+                if g != fl and was.get(g) != now_.get(g):
+                    ctx.fail("chain-rewrite-changes-other-flavor", small, expected=was.get(g), observed=now_.get(g),
+                             what="step %d (%s %s) changed the chain entry of flavor %s" % (k, op["op"], fl, g))
+            prev = after
+        else:
+            # the renamed stack reads the same records
+            for g in c["flavors"]:
+                if i["moved"]["tagged"].get(g) != tagged.get(g):
+                    ctx.fail("tagged-version", small, expected=tagged.get(g), observed=i["moved"]["tagged"].get(g),
+                             what="after renaming the stack flavor %s has current = %r" % (g, i["moved"]["tagged"].get(g)))
+            if parsed_blocks(i["moved"]["chain"]) != parsed_blocks(prev["chain"]):
+                ctx.fail("chain-changed-by-move", small, expected=None, observed=None, what="chain file differs")
+
+
 # ------------------------------------------------------------------ driver
 
 def corpus_cases():
@@ -892,6 +1114,9 @@ def run_cases(ctx, cases):
             run_paths(ctx, pth, scratch)
         for k in range(0, len(stk), 200):
             run_stack(ctx, stk[k:k + 200], scratch)
+        tg = [c for c in cases if c["kind"] == "tags"]
+        for k in range(0, len(tg), 200):
+            run_tags(ctx, tg[k:k + 200], scratch)
     finally:
         shutil.rmtree(scratch, ignore_errors=True)
 
@@ -904,7 +1129,9 @@ def setup(ctx):
                 "resolvePaths and addFlavor+write(trimDir); stack: 1-3 flavors per record, directory inside / outside "
                 "/ none x table in ups / absolute inside / absolute outside / interned / absolute in the database / "
                 "none, stack and outside names with spaces, optional pre-existing block, tags, declared through "
-                "Database.declare, stack renamed, then copied; non-trivial = at least one block (codec), every paths "
+                "Database.declare, stack renamed, then copied; tags: two versions x 2-3 flavors of one product, 4-8 "
+                "operations (Database.declare with or without a tag, assignTag, unassignTag, undeclare) on one flavor "
+                "at a time while the others already have version blocks and chain entries, stack renamed; non-trivial = at least one block (codec), every paths "
                 "case, every stack case; distinct = distinct input")
     ctx.trusted_base = common.COMMON_TRUSTED + [
         "modelled, not verified: python re on ASCII text for the five reader patterns and the five macro patterns, "
@@ -935,6 +1162,8 @@ def run(ctx):
         cases.append(gen_paths(rng))
     for _ in range(ctx.size(300, 10000)):
         cases.append(gen_stack(rng))
+    for _ in range(ctx.size(150, 4000)):
+        cases.append(gen_tags(rng))
     for c in [x for x in cases if x["kind"] == "stack"][:2] + [x for x in cases if x["kind"] == "vftext"][:1]:
         ctx.sample(c)
     run_cases(ctx, cases)
